@@ -212,10 +212,12 @@ func TestC09(t *testing.T) {
 		sparseBodies(t, r, dir)
 		failedActivate(t, r, dir)
 		pollsDuringFailingActivations(t, r, dir)
+		emptyActiveValue(t, r, dir)
+		samePatternsOtherActions(t, r, dir)
 		differentVAtOnce(t, r, dir)
 		auditFailureIsNotNotModified(t, r, dir)
 	}
-	r.Require("polls_during_failing_activations", "sparse_request_bodies", "conditional_gets_after_a_failed_activation", "out_of_range_versions", "overlapping_polls_with_different_v", "conditional_gets_with_failing_audit", "hand_written_file_entries", "post_quiescence_conditional_gets", "concurrent_conditional_gets", "histories", "db_notchanged", "db_value", "http_notchanged", "http_value", "file_notchanged", "file_value", "denied_checks",
+	r.Require("conditional_gets_of_an_empty_value", "conditional_gets_same_patterns_other_actions", "polls_during_failing_activations", "sparse_request_bodies", "conditional_gets_after_a_failed_activation", "out_of_range_versions", "overlapping_polls_with_different_v", "conditional_gets_with_failing_audit", "hand_written_file_entries", "post_quiescence_conditional_gets", "concurrent_conditional_gets", "histories", "db_notchanged", "db_value", "http_notchanged", "http_value", "file_notchanged", "file_value", "denied_checks",
 		"shape_reactivated_older_version", "shape_v_existing_inactive", "shape_v_names_deleted_version", "shape_v_beyond_latest")
 	r.Rule("seeded histories of 15-30 put/activate/delete-version/delete steps over 2 names; after every step conditional gets with V in {0, 1, active, every version number up to latest (existing and deleted), latest+1, 2^32-1} on both names and an absent one, through db.GetConditional, HTTP handler + setec.Client, and FileClient on a file generated from the model; plus a caller without get permission. Distinct = (front end, class of V, model outcome)")
 }
@@ -786,4 +788,137 @@ func pollsDuringFailingActivations(t *testing.T, r *evid.Run, dir string) {
 	r.Eval(1)
 	r.Count("failed_activations_under_polls", nfail)
 	r.Distinct("polls during failing activations")
+}
+
+// emptyActiveValue: the active version is the EMPTY value (a feature switched off; setec put --empty-ok). A
+// conditional get with any V other than the active version delivers it - zero bytes, its version number - at
+// the DB API and through the real client; with V = active it is "not changed".
+func emptyActiveValue(t *testing.T, r *evid.Run, dir string) {
+	d, err := realdb.Open(filepath.Join(dir, "emptyactive.db"), realdb.DummyKey("c09ea"))
+	if err != nil {
+		t.Fatal(err)
+	}
+	all := []refmodel.Rule{{Actions: []string{"get", "info", "put", "activate", "delete"}, Patterns: []string{"*"}}}
+	su := realdb.Caller("ok@verif", all)
+	srv, err := httpdrv.New(d)
+	if err != nil {
+		t.Fatal(err)
+	}
+	const addr = "100.64.0.9:9"
+	srv.SetWho(addr, httpdrv.Who{Login: "ok@verif", Node: "ok", Rules: all})
+	cl := setec.Client{Server: "http://setec.verif", DoHTTP: srv.ClientDo(addr)}
+	vals := [][]byte{[]byte("hello"), {}, []byte("again"), nil}
+	for _, v := range vals {
+		d.Put(su, "switch", v)
+	}
+	ctx := context.Background()
+	for _, active := range []uint32{2, 1, 4, 3, 2} {
+		if err := d.Activate(su, "switch", api.SecretVersion(active)); err != nil {
+			t.Fatal(err)
+		}
+		for _, v := range []uint32{0, 1, 2, 3, 4, 5, 0xFFFFFFFF} {
+			for _, front := range []string{"db", "http"} {
+				var sv *api.SecretValue
+				var err error
+				if front == "db" {
+					sv, err = d.GetConditional(su, "switch", api.SecretVersion(v))
+				} else {
+					sv, err = cl.GetIfChanged(ctx, "switch", api.SecretVersion(v))
+				}
+				r.Eval(1)
+				r.Count("conditional_gets_of_an_empty_value", 1)
+				c := realdb.Classify(err)
+				var ok bool
+				if v == active {
+					ok = c == refmodel.NotChanged
+				} else {
+					ok = c == refmodel.OK && sv != nil && uint32(sv.Version) == active && string(sv.Value) == string(vals[active-1])
+				}
+				if !ok {
+					key := front + "-conditional-get-wrong"
+					if c == refmodel.NotChanged {
+						key = front + "-not-modified-although-changed"
+					}
+					r.Violation(key, -1, fmt.Sprintf("versions 1..4 hold %q; version %d is active; %s get-if-changed V=%d answered %s %v (err %v)", vals, active, front, v, c, sv, err), nil)
+					return
+				}
+			}
+		}
+	}
+	r.Distinct("conditional gets of an empty active value")
+}
+
+// samePatternsOtherActions: two callers poll the same secret; their rules name the same patterns and differ in
+// the actions (a reader with get, an operator with put+activate), in either order and again after a policy
+// change that swaps their rules. The reader gets the value or "not changed", the operator "access denied".
+func samePatternsOtherActions(t *testing.T, r *evid.Run, dir string) {
+	for c := 0; c < r.N(8, 80); c++ {
+		rng := r.Rand(uint64(99_000 + c))
+		d, err := realdb.Open(filepath.Join(dir, fmt.Sprintf("spoa%d.db", c)), realdb.DummyKey("c09sp"))
+		if err != nil {
+			t.Fatal(err)
+		}
+		su := realdb.Super()
+		d.Put(su, "prod/db", []byte("one"))
+		d.Put(su, "prod/db", []byte("two"))
+		srv, err := httpdrv.New(d)
+		if err != nil {
+			t.Fatal(err)
+		}
+		readerRules := []refmodel.Rule{{Actions: []string{"get"}, Patterns: []string{"prod/*"}}}
+		operRules := []refmodel.Rule{{Actions: []string{"put", "activate"}, Patterns: []string{"prod/*"}}}
+		type who struct {
+			login string
+			rules []refmodel.Rule
+			addr  string
+		}
+		ws := []who{{"reader@verif", readerRules, "100.64.0.21:1"}, {"operator@verif", operRules, "100.64.0.22:1"}}
+		active := uint32(1)
+		for step := 0; step < 12; step++ {
+			if step == 6 {
+				ws[0].rules, ws[1].rules = ws[1].rules, ws[0].rules // the policy changes: the two swap their grants
+			}
+			if rng.IntN(3) == 0 {
+				active = 3 - active
+				d.Activate(su, "prod/db", api.SecretVersion(active))
+			}
+			for _, wi := range rng.Perm(2) {
+				w := ws[wi]
+				mayGet := w.rules[0].Actions[0] == "get"
+				v := []uint32{1, 2, 7}[rng.IntN(3)]
+				for _, front := range []string{"db", "http"} {
+					var sv *api.SecretValue
+					var err error
+					if front == "db" {
+						sv, err = d.GetConditional(realdb.Caller(w.login, w.rules), "prod/db", api.SecretVersion(v))
+					} else {
+						srv.SetWho(w.addr, httpdrv.Who{Login: w.login, Node: "n", Rules: w.rules})
+						cl := setec.Client{Server: "http://setec.verif", DoHTTP: srv.ClientDo(w.addr)}
+						sv, err = cl.GetIfChanged(context.Background(), "prod/db", api.SecretVersion(v))
+					}
+					r.Eval(1)
+					r.Count("conditional_gets_same_patterns_other_actions", 1)
+					cl := realdb.Classify(err)
+					var ok bool
+					switch {
+					case !mayGet:
+						ok = cl == refmodel.Denied
+					case v == active:
+						ok = cl == refmodel.NotChanged
+					default:
+						ok = cl == refmodel.OK && sv != nil && uint32(sv.Version) == active && string(sv.Value) == []string{"one", "two"}[active-1]
+					}
+					if !ok {
+						key := front + "-conditional-get-wrong"
+						if !mayGet {
+							key = front + "-denied-caller-not-refused"
+						}
+						r.Violation(key, c, fmt.Sprintf("case %d step %d: %s (rules %v) %s get-if-changed prod/db V=%d while version %d is active: %s %v (err %v); another caller with the same patterns and other actions polls the same secret", c, step, w.login, w.rules, front, v, active, cl, sv, err), nil)
+						return
+					}
+				}
+			}
+		}
+	}
+	r.Distinct("same patterns, other actions")
 }
